@@ -66,7 +66,8 @@ def run(ctx: Ctx):
               ' ranges of merged sequences: the rebuilt shard is the recorded'
               ' one incl. its configuration (R-C09-2) and a range never reads'
               ' past its stop (R-C09-6); and the shards ARE a partition: shard() computes the'
-              ' balanced contiguous split for all (n, K, k) (R-C09-1)', _c09_shared, min_instances=12)
+              ' balanced contiguous split for all (n, K, k) (R-C09-1); a per-thread sub-shard that starts inside one piece of a'
+              ' merged source reads every later piece from its offset 0 (R-C09-12)', _c09_shared, min_instances=12)
 
 def r12(ctx: Ctx):
   rule = 'R-C03-12'
@@ -121,6 +122,7 @@ def _c09_shared(sub):
   sub.guard(c09.r6)
   sub.guard(c09.r10)
   sub.guard(c09.r1)
+  sub.guard(c09.r12)
 
 
 def r1(ctx: Ctx):
